@@ -53,7 +53,12 @@ P = {
             "rule factory, ruleImpl.Execute, CreateURL/Rewrite, ReverseProxy and Transport to raw TCP upstreams (plain and TLS); corpus "
             "(every finding's witness, the non-vacuity example, edge targets) first.  Non-trivial = forwarded AND at least one of: an escaped "
             "path met strip/add prefix, a stripped parameter was present, a client header collided with a pipeline header, the client sent "
-            "a forwarding / X-Forwarded-Method/-Uri/-Path field; distinct by hash of the input (upstream port excluded).",
+            "a forwarding / X-Forwarded-Method/-Uri/-Path field; distinct by hash of the input (upstream port excluded).  Stream units: "
+            "Backend.CreateURL on arbitrary url.URL values (RawPath empty / consistent / inconsistent with Path, '*', relative paths) x rewrite "
+            "configurations; non-trivial = an escaped path met strip/add prefix or a query met strip_query_parameters.  Stream e2e: the real "
+            "assembled proxy application (fx wiring of cmd/serve, YAML configuration and rule file with 24 generated rules /r<i>/**, real "
+            "executor, repository, anonymous authenticator, header and cookie finalizers) under 2 trusted_proxies configurations, same "
+            "request generator and evaluator; non-trivial = forwarded.",
     "anchors": ["internal/rules/config/backend.go", "internal/rules/config/url_rewriter.go", "internal/rules/rule_impl.go",
                 "internal/handler/proxy/request_context.go", "internal/handler/proxy/service.go",
                 "internal/handler/requestcontext/extract_url.go", "internal/handler/requestcontext/extract_method.go",
